@@ -57,7 +57,7 @@ static double now_s() {
 }
 
 // ------------------------------------------------------------ op records ----
-enum OK { O_PUT, O_DEL, O_BATCH, O_GET, O_SNAPGET, O_SCAN, O_FLUSH, O_CRANGE, O_COMPACT, O_PROP, O_APPROX, O_SNAPHOLD, O_OTHER };
+enum OK { O_PUT, O_DEL, O_BATCH, O_GET, O_SNAPGET, O_SCAN, O_FLUSH, O_CRANGE, O_COMPACT, O_PROP, O_APPROX, O_SNAPHOLD, O_BACKUP, O_OTHER };
 
 struct Upd { bool put; std::string key, value; };
 struct OpRec {
@@ -68,6 +68,8 @@ struct OpRec {
   std::vector<std::string> keys;        // reads
   int level = 0;
   bool sync = false;
+  std::string path;                     // backup destination
+  bool is_backup = false;
   // results
   int rc = 0;
   std::vector<std::pair<bool, std::string>> vals;          // per key: (found, value)
@@ -79,6 +81,7 @@ struct OpRec {
 static uint64_t g_stamp = 0;
 
 struct Shared {
+  std::string dir;
   ldb_t *db = nullptr;
   std::vector<OpRec> *ops = nullptr;
 };
@@ -134,6 +137,12 @@ static void exec_op(Shared *sh, OpRec &o) {
     case O_CRANGE: ldb_test_compact_range(db, o.level, nullptr, nullptr); break;
     case O_COMPACT: ldb_compact(db, nullptr, nullptr); break;
     case O_PROP: { char *v = nullptr; if (ldb_property(db, "leveldb.sstables", &v) && v) ldb_free(v); if (ldb_property(db, "leveldb.stats", &v) && v) ldb_free(v); break; }
+    case O_BACKUP: {
+      o.path = sh->dir + sfmt(".bak%d", (int)(&o - &(*sh->ops)[0]));
+      rm_rf(o.path);
+      o.rc = ldb_backup(db, o.path.c_str());
+      break;
+    }
     case O_APPROX: { ldb_range_t r; std::string a = "a", z = "z"; r.start = slice_of(a); r.limit = slice_of(z); ldb_uint64_t sz; ldb_approximate_sizes(db, &r, 1, &sz); break; }
     default: break;
   }
@@ -176,6 +185,7 @@ static bool parse_thread_op(const Op &op, OpRec *o) {
   else if (n == "compact") o->kind = O_COMPACT;
   else if (n == "prop") o->kind = O_PROP;
   else if (n == "approx") o->kind = O_APPROX;
+  else if (n == "backup") { o->kind = O_BACKUP; o->is_backup = true; }
   else return false;
   return true;
 }
@@ -253,6 +263,7 @@ class ConcRunner {
   uint64_t case_hash = 0;
   bool overlapping_rw = false;
   bool close_race = false;
+  int backups_checked = 0;
 
   void sched_cfg(const Op &op) {
     if (op.has("sched")) {
@@ -298,6 +309,7 @@ class ConcRunner {
     opts.build(cfg);
     Shared sh;
     sh.ops = &ops;
+    sh.dir = dir;
     int rc = ldb_open(dir.c_str(), &opts.opt, &sh.db);
     if (rc != LDB_OK) VF_FAIL("C08", "ldb_open failed rc=%d", rc);
     // ---- sequential setup (main thread)
@@ -319,6 +331,27 @@ class ConcRunner {
     for (auto &p : targs) tids.push_back(sched_spawn(thread_main, &p.second));
     for (int t : tids) sched_join(t);
     for (auto &o : ops) if (!o.done) VF_FAIL("C09", "operation `%s` never returned", o.text.c_str());
+    // a backup taken concurrently with writers is an independently openable database whose contents are one point in
+    // the batch order: judged below exactly like a scan whose interval is the ldb_backup call
+    for (auto &o : ops) {
+      if (o.kind != O_BACKUP) continue;
+      if (o.rc != LDB_OK) VF_FAIL("C20", "`%s` returned rc=%d without any fault", o.text.c_str(), o.rc);
+      DbOptions o2;
+      o2.build(cfg);
+      o2.opt.create_if_missing = 0;
+      ldb_t *d2 = nullptr;
+      int rc2 = ldb_open(o.path.c_str(), &o2.opt, &d2);
+      if (rc2 != LDB_OK) VF_FAIL("C20", "backup taken by `%s` cannot be opened (rc=%d)", o.text.c_str(), rc2);
+      ldb_iter_t *it = ldb_iterator(d2, nullptr);
+      for (ldb_iter_first(it); ldb_iter_valid(it); ldb_iter_next(it)) o.scan.push_back({str_of(ldb_iter_key(it)), str_of(ldb_iter_value(it))});
+      int st = ldb_iter_status(it);
+      ldb_iter_destroy(it);
+      ldb_close(d2);
+      rm_rf(o.path);
+      if (st != LDB_OK) VF_FAIL("C20", "scan of the backup taken by `%s` ends with status %d", o.text.c_str(), st);
+      o.kind = O_SCAN;
+      backups_checked++;
+    }
     // ---- final state, then close while background work may still be scheduled
     std::vector<std::pair<std::string, std::string>> final_scan;
     {
@@ -373,7 +406,7 @@ class ConcRunner {
 
     // (1) complete search for small histories
     std::vector<const OpRec *> lin;
-    for (auto &o : ops) if (o.kind == O_PUT || o.kind == O_DEL || o.kind == O_BATCH || o.kind == O_GET || o.kind == O_SNAPGET || o.kind == O_SCAN) lin.push_back(&o);
+    for (auto &o : ops) if ((o.kind == O_PUT || o.kind == O_DEL || o.kind == O_BATCH || o.kind == O_GET || o.kind == O_SNAPGET || o.kind == O_SCAN) && !o.is_backup) lin.push_back(&o);
     if (lin.size() <= 14) {
       long explored = 0;
       // scans see the whole database: the model must contain the setup keys too
@@ -388,6 +421,96 @@ class ConcRunner {
     // (2) register checks
     if (registers) {
       auto check_view = [&](const OpRec &o, const std::string &key, bool found, const std::string &val) {
+        try { return check_view_inner(o, key, found, val, writes); } catch (Violation &v) { if (o.is_backup) { v.prop = "C20"; v.msg = "backup contents: " + v.msg; } throw; }
+      };
+      // per-thread program index of every write (for cut closure)
+      std::map<int, std::vector<std::pair<std::string, int>>> prog;  // thread -> [(key, index in that key's write list)] in program order
+      for (auto &o : ops) {
+        if (o.kind != O_PUT && o.kind != O_DEL && o.kind != O_BATCH) continue;
+        std::map<std::string, bool> seen;
+        for (auto &u : o.ups) seen[u.key] = true;
+        for (auto &p : seen) {
+          auto &ws = writes[p.first];
+          for (size_t i = 0; i < ws.size(); i++) if (ws[i].index == (int)(&o - &ops[0])) prog[o.thread].push_back({p.first, (int)i});
+        }
+      }
+      std::map<std::string, std::map<int, int>> last_seen;  // key -> (reader thread -> last observed index) for monotonic reads
+      std::vector<const OpRec *> reads;
+      for (auto &o : ops) if (o.kind == O_GET || o.kind == O_SNAPGET || o.kind == O_SCAN) reads.push_back(&o);
+      std::sort(reads.begin(), reads.end(), [](const OpRec *a, const OpRec *b) { return a->inv < b->inv; });
+      struct Obs { uint64_t inv, ret; int idx; };
+      std::map<std::string, std::vector<Obs>> per_key_obs;
+      for (const OpRec *op : reads) {
+        const OpRec &o = *op;
+        std::map<std::string, int> view;  // key -> observed write index
+        if (o.kind == O_SCAN) {
+          std::map<std::string, std::string> m(o.scan.begin(), o.scan.end());
+          if (m.size() != o.scan.size()) VF_FAIL("C07", "`%s`: scan yields a key twice", o.text.c_str());
+          for (size_t i = 1; i < o.scan.size(); i++) if (cmp_apply(cmp_kind_of(cfg.cmp), o.scan[i - 1].first.data(), o.scan[i - 1].first.size(), o.scan[i].first.data(), o.scan[i].first.size()) >= 0) VF_FAIL("C07", "`%s`: scan out of order", o.text.c_str());
+          std::set<std::string> keys;
+          for (auto &p : writes) keys.insert(p.first);
+          for (auto &p : setup_state) keys.insert(p.first);
+          for (auto &p : m) keys.insert(p.first);
+          for (auto &k : keys) { auto it = m.find(k); view[k] = check_view(o, k, it != m.end(), it != m.end() ? it->second : ""); }
+        } else {
+          for (size_t i = 0; i < o.keys.size(); i++) view[o.keys[i]] = check_view(o, o.keys[i], o.vals[i].first, o.vals[i].second);
+        }
+        for (auto it2 = view.begin(); it2 != view.end();) { if (it2->second == -2) it2 = view.erase(it2); else ++it2; }
+        // A backup copies the log while a writer may be between its log append and the publication of its sequence, so it
+        // can hold a batch that no reader of the source can see yet.  C20 asks for a whole-batch prefix containing everything
+        // acknowledged before the call and nothing begun after it returned (checked above and below), not for real-time
+        // order between the backup's contents and later reads of the source: backups stay out of the monotonicity relation.
+        if (!o.is_backup) for (auto &v : view) per_key_obs[v.first].push_back(Obs{o.inv, o.ret, v.second});
+        // cut closure for multi-key views: if the view reflects thread A's write number j (program order), it reflects every earlier write of A to keys in the view
+        if (view.size() >= 2) {
+          for (auto &pr : prog) {
+            int maxpos = -1;
+            for (size_t pos = 0; pos < pr.second.size(); pos++) {
+              auto vi = view.find(pr.second[pos].first);
+              if (vi != view.end() && vi->second >= pr.second[pos].second) maxpos = std::max(maxpos, (int)pos);
+            }
+            // "reflects write at pos" = observed index >= that write's index (single writer per key => indices are program order)
+            // find the largest pos whose write is exactly observed or superseded only by later writes of the same thread
+            int reflected = -1;
+            for (size_t pos = 0; pos < pr.second.size(); pos++) {
+              auto vi = view.find(pr.second[pos].first);
+              if (vi != view.end() && vi->second == pr.second[pos].second) reflected = std::max(reflected, (int)pos);
+            }
+            for (int pos = 0; pos < reflected; pos++) {
+              auto vi = view.find(pr.second[pos].first);
+              if (vi == view.end()) continue;
+              if (vi->second < pr.second[pos].second)
+                VF_FAIL(o.is_backup ? "C20" : "C08", "`%s`: the view reflects thread %d's write #%d (to %s) but not its earlier write to %s: not a single point in time%s", o.text.c_str(), pr.first,
+                        reflected, lit_token(pr.second[reflected].first).c_str(), lit_token(pr.second[pos].first).c_str(), batch_note(pr.second, pos, reflected).c_str());
+            }
+            (void)maxpos;
+          }
+          rep->count("multi_key_views");
+        }
+      }
+      // monotonic reads in real time: a read that begins after another ended never observes an older write
+      for (auto &p : per_key_obs) {
+        auto &v = p.second;
+        for (size_t i = 0; i < v.size(); i++) for (size_t j = 0; j < v.size(); j++)
+          if (v[i].ret < v[j].inv && v[j].idx < v[i].idx && v[i].idx >= 0)
+            VF_FAIL("C08", "reads of key %s go backwards in real time: write #%d observed by a read that ended at %llu, write #%d by a read that began at %llu", lit_token(p.first).c_str(), v[i].idx,
+                    (unsigned long long)v[i].ret, v[j].idx, (unsigned long long)v[j].inv);
+      }
+      // (3) final state = last acknowledged write per key
+      std::map<std::string, std::string> fin(final_scan.begin(), final_scan.end());
+      for (auto &p : writes) {
+        const WInfo &lastw = p.second.back();
+        auto it = fin.find(p.first);
+        if (lastw.is_del) { if (it != fin.end()) VF_FAIL("C08", "final state: key %s present although its writer's last write was a delete", lit_token(p.first).c_str()); }
+        else if (it == fin.end() || it->second != lastw.value) VF_FAIL("C08", "final state: key %s does not hold its writer's last acknowledged write", lit_token(p.first).c_str());
+      }
+      for (auto &p : setup_state) if (!writes.count(p.first)) { auto it = fin.find(p.first); if (it == fin.end() || it->second != p.second) VF_FAIL("C08", "final state: untouched key %s changed", lit_token(p.first).c_str()); }
+      for (auto &p : fin) if (!writes.count(p.first) && !setup_state.count(p.first)) VF_FAIL("C08", "final state: key %s was never written", lit_token(p.first).c_str());
+      rep->count("register_checked_histories");
+    }
+  }
+
+  int check_view_inner(const OpRec &o, const std::string &key, bool found, const std::string &val, std::map<std::string, std::vector<WInfo>> &writes) {
         auto wit = writes.find(key);
         if (wit == writes.end()) {
           auto s = setup_state.find(key);
@@ -425,88 +548,6 @@ class ConcRunner {
         // not newer than the last write begun before the read returned
         if (obs >= 0 && ws[obs].inv > o.ret) VF_FAIL("C08", "`%s`: key %s shows write #%d which was invoked only after the read returned", o.text.c_str(), lit_token(key).c_str(), obs);
         return obs;
-      };
-      // per-thread program index of every write (for cut closure)
-      std::map<int, std::vector<std::pair<std::string, int>>> prog;  // thread -> [(key, index in that key's write list)] in program order
-      for (auto &o : ops) {
-        if (o.kind != O_PUT && o.kind != O_DEL && o.kind != O_BATCH) continue;
-        std::map<std::string, bool> seen;
-        for (auto &u : o.ups) seen[u.key] = true;
-        for (auto &p : seen) {
-          auto &ws = writes[p.first];
-          for (size_t i = 0; i < ws.size(); i++) if (ws[i].index == (int)(&o - &ops[0])) prog[o.thread].push_back({p.first, (int)i});
-        }
-      }
-      std::map<std::string, std::map<int, int>> last_seen;  // key -> (reader thread -> last observed index) for monotonic reads
-      std::vector<const OpRec *> reads;
-      for (auto &o : ops) if (o.kind == O_GET || o.kind == O_SNAPGET || o.kind == O_SCAN) reads.push_back(&o);
-      std::sort(reads.begin(), reads.end(), [](const OpRec *a, const OpRec *b) { return a->inv < b->inv; });
-      struct Obs { uint64_t inv, ret; int idx; };
-      std::map<std::string, std::vector<Obs>> per_key_obs;
-      for (const OpRec *op : reads) {
-        const OpRec &o = *op;
-        std::map<std::string, int> view;  // key -> observed write index
-        if (o.kind == O_SCAN) {
-          std::map<std::string, std::string> m(o.scan.begin(), o.scan.end());
-          if (m.size() != o.scan.size()) VF_FAIL("C07", "`%s`: scan yields a key twice", o.text.c_str());
-          for (size_t i = 1; i < o.scan.size(); i++) if (cmp_apply(cmp_kind_of(cfg.cmp), o.scan[i - 1].first.data(), o.scan[i - 1].first.size(), o.scan[i].first.data(), o.scan[i].first.size()) >= 0) VF_FAIL("C07", "`%s`: scan out of order", o.text.c_str());
-          std::set<std::string> keys;
-          for (auto &p : writes) keys.insert(p.first);
-          for (auto &p : setup_state) keys.insert(p.first);
-          for (auto &p : m) keys.insert(p.first);
-          for (auto &k : keys) { auto it = m.find(k); view[k] = check_view(o, k, it != m.end(), it != m.end() ? it->second : ""); }
-        } else {
-          for (size_t i = 0; i < o.keys.size(); i++) view[o.keys[i]] = check_view(o, o.keys[i], o.vals[i].first, o.vals[i].second);
-        }
-        for (auto it2 = view.begin(); it2 != view.end();) { if (it2->second == -2) it2 = view.erase(it2); else ++it2; }
-        for (auto &v : view) per_key_obs[v.first].push_back(Obs{o.inv, o.ret, v.second});
-        // cut closure for multi-key views: if the view reflects thread A's write number j (program order), it reflects every earlier write of A to keys in the view
-        if (view.size() >= 2) {
-          for (auto &pr : prog) {
-            int maxpos = -1;
-            for (size_t pos = 0; pos < pr.second.size(); pos++) {
-              auto vi = view.find(pr.second[pos].first);
-              if (vi != view.end() && vi->second >= pr.second[pos].second) maxpos = std::max(maxpos, (int)pos);
-            }
-            // "reflects write at pos" = observed index >= that write's index (single writer per key => indices are program order)
-            // find the largest pos whose write is exactly observed or superseded only by later writes of the same thread
-            int reflected = -1;
-            for (size_t pos = 0; pos < pr.second.size(); pos++) {
-              auto vi = view.find(pr.second[pos].first);
-              if (vi != view.end() && vi->second == pr.second[pos].second) reflected = std::max(reflected, (int)pos);
-            }
-            for (int pos = 0; pos < reflected; pos++) {
-              auto vi = view.find(pr.second[pos].first);
-              if (vi == view.end()) continue;
-              if (vi->second < pr.second[pos].second)
-                VF_FAIL(o.kind == O_SCAN ? "C08" : "C08", "`%s`: the view reflects thread %d's write #%d (to %s) but not its earlier write to %s: not a single point in time%s", o.text.c_str(), pr.first,
-                        reflected, lit_token(pr.second[reflected].first).c_str(), lit_token(pr.second[pos].first).c_str(), batch_note(pr.second, pos, reflected).c_str());
-            }
-            (void)maxpos;
-          }
-          rep->count("multi_key_views");
-        }
-      }
-      // monotonic reads in real time: a read that begins after another ended never observes an older write
-      for (auto &p : per_key_obs) {
-        auto &v = p.second;
-        for (size_t i = 0; i < v.size(); i++) for (size_t j = 0; j < v.size(); j++)
-          if (v[i].ret < v[j].inv && v[j].idx < v[i].idx && v[i].idx >= 0)
-            VF_FAIL("C08", "reads of key %s go backwards in real time: write #%d observed by a read that ended at %llu, write #%d by a read that began at %llu", lit_token(p.first).c_str(), v[i].idx,
-                    (unsigned long long)v[i].ret, v[j].idx, (unsigned long long)v[j].inv);
-      }
-      // (3) final state = last acknowledged write per key
-      std::map<std::string, std::string> fin(final_scan.begin(), final_scan.end());
-      for (auto &p : writes) {
-        const WInfo &lastw = p.second.back();
-        auto it = fin.find(p.first);
-        if (lastw.is_del) { if (it != fin.end()) VF_FAIL("C08", "final state: key %s present although its writer's last write was a delete", lit_token(p.first).c_str()); }
-        else if (it == fin.end() || it->second != lastw.value) VF_FAIL("C08", "final state: key %s does not hold its writer's last acknowledged write", lit_token(p.first).c_str());
-      }
-      for (auto &p : setup_state) if (!writes.count(p.first)) { auto it = fin.find(p.first); if (it == fin.end() || it->second != p.second) VF_FAIL("C08", "final state: untouched key %s changed", lit_token(p.first).c_str()); }
-      for (auto &p : fin) if (!writes.count(p.first) && !setup_state.count(p.first)) VF_FAIL("C08", "final state: key %s was never written", lit_token(p.first).c_str());
-      rep->count("register_checked_histories");
-    }
   }
 
   std::string batch_note(const std::vector<std::pair<std::string, int>> &prog, int a, int b) {
@@ -551,6 +592,8 @@ static bool run_one(const Case &c, Report *rep, Violation *v, const std::vector<
     bool multi_batch = false;
     for (auto &o : r->ops) if (o.kind == O_BATCH && o.ups.size() >= 2) multi_batch = true;
     if (multi_batch && r->overlapping_rw) rep->fp("C04.nt", h);
+    if (r->backups_checked > 0 && r->overlapping_rw) rep->fp("C20.nt", h);
+    if (r->backups_checked > 0) rep->count("backups_concurrent_with_writers", r->backups_checked);
     rep->count("steps", (long long)st.steps);
     rep->count("choice_points", (long long)st.choice_points);
     rep->count("switches", (long long)st.switches);
